@@ -68,6 +68,18 @@ CHECKS = {
         technique="TLA+ position-machine model vs reference decoder (TLC); TLC-computed expectation table replayed; decodings judged by TLC",
         design="4/C02",
     ),
+    "C12": dict(
+        specs=["StringLitR.tla", "StringLit.tla", "StringLitIO.tla"],
+        text="The reference literal semantics (Unescape, LexEnd: a literal ends at the first quote preceded by an even run of "
+        "backslashes) is model-checked for its own laws; every literal produced by the real value_to_string on the exhaustive byte "
+        "string sets is judged by TLC (lexed as exactly one token, decodes to the bytes); every concatenation of escape atoms is "
+        "decoded by string_token_to_bytes and compared with TLC's expectation; literals are embedded in six statement forms and "
+        "parsed, checking the decoded bytes and that no syntax is injected.",
+        note="Trusted: TLC, StringLitR, harness ref_unescape (cross-checked against the TLC table on every run). Quick tier samples "
+        "the 65536 two-byte strings (all with a syntax-relevant byte); thorough is exhaustive.",
+        technique="TLC-judged encodings from the real encoder (exhaustive small sets) + TLC-computed decode table replayed + parser embedding",
+        design="4/C12",
+    ),
 }
 
 NOT_YET = "check not built yet in this round; planned in DESIGN.md section 4"
